@@ -2,7 +2,8 @@
 import os
 import vlib
 
-OVERLAY = {"node/pkg/processor/zz_verif_proc_test.go": "processor/proc_verif_test.go"}
+OVERLAY = {"node/pkg/processor/zz_verif_proc_test.go": "processor/proc_verif_test.go",
+           "node/pkg/notify/discord/zz_verif_export.go": "discord/verif_export.go"}
 
 CLAUSES = {
     "C13": ("panic-",),
